@@ -341,8 +341,11 @@ func (Engine) Run(c *choice.Src, o engine.Opt) (out engine.Out) {
 		if c.Bool(1, 4, "farwindow") {
 			// a window far into the stream (block counter > 2^16, > 2^24), still cheap because
 			// we reach it by restoring a hand-made state: seed||customizer||counter
-			lo = []int{1 << 22, 1<<30 - 70, 1<<32 - 100, 1<<36 + 5}[c.Choose(4, "farbase")]
+			lo = []int{1 << 22, 1<<30 - 70, 1<<32 - 100, 1<<36 + 5, 1<<38 - 420}[c.Choose(5, "farbase")]
 			hi = lo + 140
+			if lo == 1<<38-420 {
+				hi = lo + 215 // the last offset from which every read below stays inside the 2^38-byte stream
+			}
 			out.Params["far_window_base"] = lo
 		}
 		out.Params["window"] = []int{lo, hi}
@@ -413,6 +416,41 @@ func (Engine) Run(c *choice.Src, o engine.Opt) (out engine.Out) {
 				return out
 			}
 			out.SimTime["keystream_bytes"] += 1 + 63 + 64 + 65 + 200 + 70
+		}
+		if lo == 1<<38-420 {
+			// the very last block of the documented range: hand-made states, one byte read
+			for _, off := range []uint64{1<<38 - 64, 1<<38 - 63, 1<<38 - 33, 1<<38 - 2, 1<<38 - 1} {
+				st := append(append(append([]byte(nil), seed...), make([]byte, 12)...), make([]byte, 8)...)
+				copy(st[32:44], cust)
+				binary.LittleEndian.PutUint64(st[44:], off)
+				failed := ""
+				func() {
+					defer func() {
+						if r := recover(); r != nil {
+							failed = fmt.Sprintf("panic: %v", r)
+						}
+					}()
+					q, err := random.RestoreChacha20PRG(st)
+					if err != nil || q == nil {
+						failed = fmt.Sprintf("rejected: %v", err)
+						return
+					}
+					if !bytes.Equal(q.Store(), st) {
+						failed = "Store() differs"
+						return
+					}
+					b := make([]byte, 1)
+					q.Read(b)
+					if !bytes.Equal(b, m.stream(off, 1)) {
+						failed = "Read(1) is not the keystream byte"
+					}
+				}()
+				if failed != "" {
+					viol("restore", "restore.lastblock", "state stored at offset 2^38-%d (inside the last block of the stream): %s", (uint64(1)<<38)-off, failed)
+					return out
+				}
+				out.Faults["crash_restart"]++
+			}
 		}
 		ev("offset sweep [%d,%d]: store/restore exact at every offset", lo, hi)
 		fp = append(fp, fmt.Sprint("sweep", lo, hi, chunk.Intn(1<<30)))
